@@ -28,6 +28,10 @@
 (* findings of f, Cross the family of file sets that jointly produce one     *)
 (* cross-file finding (duplicate code, repeated string sets).                *)
 (***************************************************************************)
+\* One CLI invocation is a SEQUENCE of runs, in either mode: the explicitly named files form one run, every
+\* directory argument is a run of its own (src/cli/utils.py execute_linting_on_paths); this module describes one
+\* run.  Cross-file evidence therefore never spans two arguments, with or without --parallel - the conformance
+\* check invokes the CLI with one directory, a file list, several directories, and files plus directories.
 EXTENDS Naturals, Sequences, FiniteSets, TLC
 
 CONSTANTS NFiles,      \* number of files handed to lint_files_parallel
